@@ -26,6 +26,7 @@ import (
 	"github.com/openGemini/openGemini/app/ts-meta/meta"
 	"github.com/openGemini/openGemini/lib/config"
 	meta2 "github.com/openGemini/openGemini/lib/util/lifted/influx/meta"
+	proto2 "github.com/openGemini/openGemini/lib/util/lifted/influx/meta/proto"
 	"github.com/openGemini/openGemini/lib/util/lifted/protobuf/proto"
 	"go.uber.org/zap"
 	"verifharness/internal/gen"
@@ -371,6 +372,13 @@ func genCmd(r *gen.Rand, d *meta2.Data) Cmd {
 	}
 	var sgs, igs []gref
 	var shards, idxs []uint64
+	type sref struct {
+		p   pick
+		id  uint64
+		own uint32
+	}
+	var firstShard []sref
+	ownerless := false
 	type mref struct {
 		p      pick
 		m, ver int
@@ -385,6 +393,17 @@ func genCmd(r *gen.Rand, d *meta2.Data) Cmd {
 				sgs = append(sgs, gref{p, g.ID})
 				for _, s := range g.Shards {
 					shards = append(shards, s.ID)
+					if len(s.Owners) == 0 {
+						ownerless = true // re-sharded groups: the internal store-issued commands below assume owners
+					}
+				}
+				for i := 1; i < len(g.Shards); i++ {
+					if g.Shards[i].ID != g.Shards[i-1].ID+1 {
+						ownerless = true // expanded groups hold non-consecutive shard ids: UpdateShardDownSampleInfo's range test then hits a missing shard and panics (observed; not generated)
+					}
+				}
+				if len(g.Shards) > 0 && len(g.Shards[0].Owners) > 0 {
+					firstShard = append(firstShard, sref{p, g.Shards[0].ID, g.Shards[0].Owners[0]})
 				}
 			}
 			for _, g := range rp.IndexGroups {
@@ -404,6 +423,7 @@ func genCmd(r *gen.Rand, d *meta2.Data) Cmd {
 	sort.Slice(sgs, func(i, j int) bool { return sgs[i].id < sgs[j].id })
 	sort.Slice(igs, func(i, j int) bool { return igs[i].id < igs[j].id })
 	sort.Slice(shards, func(i, j int) bool { return shards[i] < shards[j] })
+	sort.Slice(firstShard, func(i, j int) bool { return firstShard[i].id < firstShard[j].id })
 	sort.Slice(idxs, func(i, j int) bool { return idxs[i] < idxs[j] })
 	sort.Slice(msts, func(i, j int) bool {
 		a, b := msts[i], msts[j]
@@ -432,7 +452,7 @@ func genCmd(r *gen.Rand, d *meta2.Data) Cmd {
 		return uint64(r.Intn(6))
 	}
 	sgd := []int64{0, Hour, Hour, 2 * Hour, 24 * Hour, 7 * 24 * Hour}
-	k := r.Intn(200)
+	k := r.Intn(216)
 	if len(d.DataNodes) == 0 && r.Chance(3, 4) {
 		k = 0
 	} else if len(dbs) == 0 && r.Chance(2, 3) {
@@ -449,6 +469,9 @@ func genCmd(r *gen.Rand, d *meta2.Data) Cmd {
 		return c
 	case k < 22:
 		c := Cmd{K: "cdb", DB: r.Range(1, 3), B1: r.Chance(1, 3)}
+		if r.Chance(1, 8) {
+			c.U1 = 2 // replicated database (replication groups are created with its partition view)
+		}
 		if r.Chance(3, 4) {
 			c.HasRP, c.RP, c.D, c.SGD = true, r.Range(1, 3), i64(0), i64(gen.Pick(r, sgd))
 		} else {
@@ -531,7 +554,11 @@ func genCmd(r *gen.Rand, d *meta2.Data) Cmd {
 		return Cmd{K: "pruneig", ID: d.MaxIndexID + uint64(r.Range(1, 5))}
 	case k < 113:
 		if len(dbs) > 0 {
-			return Cmd{K: "cptv", DB: gen.Pick(r, dbs)}
+			c := Cmd{K: "cptv", DB: gen.Pick(r, dbs)}
+			if dbi := d.Databases[metacmd.DBName(c.DB)]; dbi != nil && dbi.ReplicaN > 1 {
+				c.U1 = uint64(dbi.ReplicaN)
+			}
+			return c
 		}
 		return Cmd{K: "cqlease"}
 	case k < 116:
@@ -625,14 +652,87 @@ func genCmd(r *gen.Rand, d *meta2.Data) Cmd {
 		return Cmd{K: "umst", DB: p.db, RP: p.rp, M: r.Range(1, 3), TS: int64(r.Range(1, 40))}
 	case k < 198:
 		return Cmd{K: "tmpindex", Status: r.Intn(2), U1: uint64(r.Intn(50)), ID: nodeID()}
-	case k < 199:
-		return []Cmd{{K: "urepl", DB: anyDB(), Pt: 0, Status: 0}, {K: "insfiles"}, {K: "rmevent", S1: "db1$0"}}[r.Intn(3)]
+	case k < 200:
+		return []Cmd{{K: "urepl", DB: 0, Pt: 0, Status: 0}, {K: "insfiles"}, {K: "rmevent", S1: "db1$0"}}[r.Intn(3)]
 	default:
+		// the remaining command kinds; arguments that would dereference a missing database or policy are not produced
+		switch r.Intn(9) {
+		case 0:
+			if len(pairs) > 0 {
+				q := gen.Pick(r, pairs)
+				return Cmd{K: "cdsp", DB: q.db, RP: q.rp, U1: uint64(r.Range(1, 3)), TS: int64(r.Range(0, 3)) * 24 * Hour}
+			}
+		case 1:
+			if !ownerless {
+				c := Cmd{K: "dsinfo", DB: p.db, RP: p.rp, ID: d.MaxShardID + uint64(r.Range(1, 4)), Status: r.Intn(3), U1: uint64(r.Intn(3)), Def: r.Bool()}
+				if len(firstShard) > 0 {
+					f := gen.Pick(r, firstShard)
+					c.DB, c.RP, c.ID = f.p.db, f.p.rp, f.id
+				}
+				return c
+			}
+		case 2, 3:
+			db := anyDB()
+			return Cmd{K: "cevent", S1: fmt.Sprintf("db%d$%d", db, r.Intn(2)), DB: db, Pt: r.Intn(2), COwner: nodeID(), CStat: r.Intn(4), Status: r.Intn(3),
+				Eng: r.Intn(4), Ver: r.Intn(4), Owner: nodeID(), ID: nodeID(), Def: r.Chance(1, 3)}
+		case 4:
+			db := anyDB()
+			return Cmd{K: "uevent", S1: fmt.Sprintf("db%d$%d", db, r.Intn(2)), DB: db, U1: d.MaxEventOpId - uint64(r.Intn(2)), Eng: r.Intn(4), Ver: r.Intn(4)}
+		case 5:
+			// re-sharding indexes the policy's last index group by partition id: only offered when every index group of the
+			// policy has an index per partition (otherwise it panics on every replica - observed; not generated)
+			if len(sgs) > 0 && !ownerless {
+				g := sgs[len(sgs)-1]
+				okIG := false
+				if dbi := d.Databases[metacmd.DBName(g.p.db)]; dbi != nil {
+					if rpi := dbi.RetentionPolicies[metacmd.RPName(g.p.rp)]; rpi != nil && len(rpi.IndexGroups) > 0 {
+						okIG = true
+						for _, ig := range rpi.IndexGroups {
+							if len(ig.Indexes) < int(d.ClusterPtNum) {
+								okIG = false
+							}
+						}
+					}
+				}
+				if okIG {
+					return Cmd{K: "reshard", DB: g.p.db, RP: g.p.rp, ID: g.id, TS: Base + int64(r.Range(-10, 10))*Hour}
+				}
+			}
+		case 6:
+			// two shards of one partition in two successive groups of one policy, as a store reports them after a merge
+			if !ownerless {
+				for i := 0; i+1 < len(firstShard); i++ {
+					a, b := firstShard[i], firstShard[i+1]
+					if a.p == b.p && a.own == b.own && r.Chance(1, 2) {
+						return Cmd{K: "merge", DB: a.p.db, RP: a.p.rp, Pt: int(a.own), ID: a.id, U1: b.id}
+					}
+				}
+				// (shard ids that are all unknown - e.g. pruned meanwhile - make ReplaceMergeShards index an empty slice and
+				// panic on every replica: observed, reported in NOTES, not generated)
+			}
+		case 7:
+			return Cmd{K: "setdata"}
+		}
 		if len(dbs) > 0 {
 			return Cmd{K: "ddsp", DB: gen.Pick(r, dbs)}
 		}
 		return Cmd{K: "cqlease"}
 	}
+}
+
+// buildCmd: like metacmd.Build, plus SetData, whose payload is the catalogue of the generator's scratch replica
+func buildCmd(c *Cmd, scratch *meta2.Data) []byte {
+	var pc *proto2.Command
+	if c.K == "setdata" {
+		pc = metacmd.MkCmd(proto2.Command_SetDataCommand, proto2.E_SetDataCommand_Command, &proto2.SetDataCommand{Data: scratch.Marshal()})
+	} else {
+		pc = metacmd.Build(c)
+	}
+	b, err := proto.Marshal(pc)
+	if err != nil {
+		panic(err)
+	}
+	return b
 }
 
 func genCase(r *gen.Rand, idx int) *Case {
@@ -649,60 +749,43 @@ func genCase(r *gen.Rand, idx int) *Case {
 			{K: "cmst", DB: db, RP: rp, M: r.Range(1, 3)}, {K: "cmst", DB: db, RP: rp, M: r.Range(1, 3)}}
 	}
 	kinds := map[string]bool{}
-	for i := 0; i < n; i++ {
-		var c Cmd
-		if i < len(warm) {
-			c = warm[i]
-		} else {
-			c = genCmd(r, S.fsm.Data())
-		}
-		b, err := proto.Marshal(metacmd.Build(&c))
-		if err != nil {
-			panic(err)
-		}
-		S.apply(i, b)
-		cs.Cmds = append(cs.Cmds, c)
-		cs.Log = append(cs.Log, base64.StdEncoding.EncodeToString(b))
-		kinds[c.K] = true
-	}
-	cs.Kinds = len(kinds)
 	cs.SnapAt = r.Range(1, n-1)
 	if r.Chance(1, 3) {
 		cs.Delay = r.Range(1, 6)
 	}
 	// node joins AFTER the restore (state that is not in the snapshot but steers apply shows up here), followed by
 	// shard-group creations that hand out ids
+	joinAt := -1
 	if r.Chance(2, 3) {
-		at := cs.SnapAt + cs.Delay + r.Intn(3)
-		if at > len(cs.Cmds) {
-			at = len(cs.Cmds)
-		}
-		h := r.Range(5, 9)
-		join := Cmd{K: "cnode", H: h, T: h}
-		if r.Chance(1, 4) {
-			join = Cmd{K: "csql", H: h}
-		}
-		extra := []Cmd{join}
-		for db := 1; db <= 3; db++ {
-			extra = append(extra, Cmd{K: "csg", DB: db, RP: 0, TS: Base + int64(r.Range(100, 200))*Hour})
-		}
-		var cmds []Cmd
-		var logs []string
-		for i := 0; i <= len(cs.Cmds); i++ {
-			if i == at {
-				for j := range extra {
-					b, _ := proto.Marshal(metacmd.Build(&extra[j]))
-					cmds = append(cmds, extra[j])
-					logs = append(logs, base64.StdEncoding.EncodeToString(b))
-				}
-			}
-			if i < len(cs.Cmds) {
-				cmds = append(cmds, cs.Cmds[i])
-				logs = append(logs, cs.Log[i])
-			}
-		}
-		cs.Cmds, cs.Log = cmds, logs
+		joinAt = cs.SnapAt + cs.Delay + r.Intn(3)
 	}
+	emit := func(c Cmd) {
+		b := buildCmd(&c, S.fsm.Data())
+		S.apply(len(cs.Cmds), b)
+		cs.Cmds = append(cs.Cmds, c)
+		cs.Log = append(cs.Log, base64.StdEncoding.EncodeToString(b))
+		kinds[c.K] = true
+	}
+	for i := 0; i < n; i++ {
+		if len(cs.Cmds) >= joinAt && joinAt >= 0 {
+			joinAt = -1
+			h := r.Range(5, 9)
+			if r.Chance(1, 4) {
+				emit(Cmd{K: "csql", H: h})
+			} else {
+				emit(Cmd{K: "cnode", H: h, T: h})
+			}
+			for db := 1; db <= 3; db++ {
+				emit(Cmd{K: "csg", DB: db, RP: 0, TS: Base + int64(r.Range(100, 200))*Hour})
+			}
+		}
+		if i < len(warm) {
+			emit(warm[i])
+		} else {
+			emit(genCmd(r, S.fsm.Data()))
+		}
+	}
+	cs.Kinds = len(kinds)
 	runCase(cs)
 	return cs
 }
